@@ -8,6 +8,7 @@ import Driver.Play
 import Driver.Expr
 import Ink.Explore
 import Ink.RefCheck
+import Driver.Cli
 
 open Ink
 
@@ -92,6 +93,7 @@ def main (args : List String) : IO UInt32 := do
   | ["audit", path] => auditCmd path; pure 0
   | ["expr", path] => exprCmd path; pure 0
   | ["refcheck", path] => refcheckCmd path; pure 0
+  | ["cli", path, mode, keep, inputs] => cliCmd path mode keep inputs; pure 0
   | "explore" :: path :: depth :: shuffle :: names => exploreCmd path depth.toNat! (shuffle == "shuffle") names; pure 0
   | ["pathprobe"] => pathProbeLoop (← IO.getStdin) (← IO.getStdout); pure 0
   | _ => IO.eprintln "usage: inkmodel audit <story.json> | pathprobe"; pure 2
